@@ -13,6 +13,10 @@
 //!     A collection whose index i satisfies i % snap_mod == snap_mod-1 (at most
 //!     snap_max of them) is serialised: the snapshot is a case of interface 61.
 //! 61  (model only) mark + sweep of Model/Gc.v on a serialised snapshot.
+//! 62  the packed two-bit map of gc.rs:  62 size { 0 index | 1 index state | 2 newsize }*
+//!     (get / set / resize); prints the result of every get.
+//! 65  symbol builtins:  65 op <text>   op 0 = string->symbol (prints the stored name),
+//!     1 = symbol->string of the symbol with that name, 2 = symbol->string after string->symbol.
 //! 63  heap statistics for C12:  63 chunk nforms <len text>*  — evaluates the forms in
 //!     turn and prints capacity/used after each:  H <cap>:<used>:<gc count> ...
 //! 64  symbol routes for C18 — same as 60 (a session), kept as a separate id so that
@@ -32,7 +36,9 @@ pub fn run(c: &[String]) -> String {
     let id: u64 = c[0].parse().unwrap_or(0);
     match id {
         60 | 64 => session_case(c),
+        62 => pmap_case(c),
         63 => stats_case(c),
+        65 => symbol_case(c),
         _ => "BADCASE".into(),
     }
 }
@@ -772,4 +778,76 @@ fn stats_case(c: &[String]) -> String {
             Some(p) => format!("FAIL:{}", esc(p).replace(' ', "_")),
         }
     )
+}
+
+// ----------------------------------------------------------------- 62: gc::Map
+fn pmap_case(c: &[String]) -> String {
+    use marwood::vm::gc::{Map, State};
+    let size = num(c, 1) as usize;
+    let mut m = Map::new(size);
+    let mut out = String::from("OK");
+    let mut i = 2;
+    while i < c.len() {
+        match num(c, i) {
+            0 if i + 1 < c.len() => {
+                out.push_str(match m.get(num(c, i + 1) as usize) {
+                    None => " N",
+                    Some(State::Free) => " F",
+                    Some(State::Allocated) => " A",
+                    Some(State::Used) => " U",
+                });
+                i += 2;
+            }
+            1 if i + 2 < c.len() => {
+                let st = match num(c, i + 2) {
+                    0 => State::Free,
+                    1 => State::Allocated,
+                    _ => State::Used,
+                };
+                let r = std::panic::catch_unwind(std::panic::AssertUnwindSafe(|| {
+                    m.set(num(c, i + 1) as usize, st)
+                }));
+                if r.is_err() {
+                    out.push_str(" PANIC");
+                    return out;
+                }
+                i += 3;
+            }
+            2 if i + 1 < c.len() => {
+                let r = std::panic::catch_unwind(std::panic::AssertUnwindSafe(|| {
+                    m.resize(num(c, i + 1) as usize)
+                }));
+                if r.is_err() {
+                    out.push_str(" PANIC");
+                    return out;
+                }
+                i += 2;
+            }
+            _ => break,
+        }
+    }
+    out
+}
+
+// ------------------------------------------------------------ 65: symbol builtins
+fn symbol_case(c: &[String]) -> String {
+    let op = num(c, 1);
+    let text = cps(&c[2..]);
+    let mut vm = Vm::new();
+    let quote = |x: Cell| Cell::new_list(vec![Cell::Symbol("quote".into()), x]);
+    let expr = match op {
+        0 => Cell::new_list(vec![Cell::Symbol("string->symbol".into()), Cell::String(text)]),
+        1 => Cell::new_list(vec![Cell::Symbol("symbol->string".into()), quote(Cell::Symbol(text))]),
+        _ => Cell::new_list(vec![
+            Cell::Symbol("symbol->string".into()),
+            Cell::new_list(vec![Cell::Symbol("string->symbol".into()), Cell::String(text)]),
+        ]),
+    };
+    match vm.eval(&expr) {
+        Ok(Cell::Symbol(s)) => format!("OK {}", esc(&s)),
+        Ok(Cell::String(s)) => format!("OK {}", esc(&s)),
+        Ok(_) => "ERR".into(),
+        Err(Error::ParseError(marwood::parse::Error::Incomplete)) => "ERR incomplete".into(),
+        Err(_) => "ERR".into(),
+    }
 }
